@@ -58,4 +58,29 @@ def encodePublicShare {qi ql : Nat} (szi szl : Nat)
     ++ (ps.inner.flatMap fun cw => cw.seed) ++ ps.leaf.seed
     ++ (ps.inner.flatMap fun cw => encodePair szi cw.value) ++ encodePair szl ps.leaf.value
 
+/-! ### payloads that are single field elements (the blanket `IdpfValue` of src/idpf.rs) -/
+
+def decodeOne (q sz : Nat) (bs : List Nat) : Fin (q + 1) :=
+  match decodeFieldVec q sz bs with
+  | some [x] => x
+  | _ => 0
+
+def tablePrg1 (tbl : Array PrgEntry) (leaf : Bool) (q sz : Nat) : Prg (List Nat) (Fin (q + 1)) where
+  extend s :=
+    match lookup tbl 0 leaf s with
+    | some out => ((out.take 16, out.getD 16 0 != 0), ((out.drop 17).take 16, out.getD 33 0 != 0))
+    | none => ((missingSeed, false), (missingSeed, false))
+  convert s :=
+    match lookup tbl 1 leaf s with
+    | some out => (out.take 16, decodeOne q sz (out.drop 16))
+    | none => (missingSeed, 0)
+
+def encodePublicShare1 {qi ql : Nat} (szi szl : Nat)
+    (ps : PublicShare (List Nat) (Fin (qi + 1)) (Fin (ql + 1))) : List Nat :=
+  let bits := ps.inner.length + 1
+  let cbs := (ps.inner.flatMap fun cw => [cw.cbL, cw.cbR]) ++ [ps.leaf.cbL, ps.leaf.cbR]
+  packBits false ((2 * bits + 7) / 8) cbs
+    ++ (ps.inner.flatMap fun cw => cw.seed) ++ ps.leaf.seed
+    ++ (ps.inner.flatMap fun cw => leBytesC cw.value.val szi) ++ leBytesC ps.leaf.value.val szl
+
 end Prio.Idpf
